@@ -80,6 +80,9 @@ type Case struct {
 	OuterWrites bool `json:"outer_writes,omitempty"`
 	// Twice: Recovery is installed twice in a row.
 	Twice bool `json:"recovery_twice,omitempty"`
+	// Late (Recovery as application middleware only): the routes are declared
+	// and the healthy one is requested once before Recovery is installed with Use.
+	Late bool `json:"recovery_installed_after_first_request,omitempty"`
 }
 
 // plainWriter is the usual embedding wrapper: http.ResponseWriter and nothing else.
@@ -131,6 +134,16 @@ func panicValue(kind string) interface{} {
 // beforeBoom is assembled at run time: the development page quotes source
 // lines, which must not contain the token that stands for the panic value.
 func beforeBoom() string { return strings.Join([]string{"before", "function", "went", "boom"}, "-") }
+
+// raiseDeep panics 'depth' frames further down.
+//
+//go:noinline
+func raiseDeep(depth int, kind string) int {
+	if depth == 0 {
+		raise(kind)
+	}
+	return raiseDeep(depth-1, kind) + 1
+}
 
 func raise(kind string) {
 	if kind == "runtime" {
@@ -241,7 +254,7 @@ func (m *sim) run() {
 				m.depth--
 			case op == "c":
 				m.cancelled = true
-			case strings.HasPrefix(op, "pg:"):
+			case strings.HasPrefix(op, "pg:"), strings.HasPrefix(op, "pd:"):
 				if m.depth > 0 {
 					m.nested = true
 				}
@@ -285,6 +298,8 @@ func simulate(hs []H, outerWrote bool) (m *sim) {
 // ---- the application ---------------------------------------------------------------
 
 type app struct {
+	primed     bool
+	late       []flamego.Handler
 	reqHdr     string
 	f          *flamego.Flame
 	seenStatus []int // Status() as read by each recording middleware after Next()
@@ -335,6 +350,10 @@ func build(c Case) *app {
 					if hj, ok := w.(http.Hijacker); ok {
 						_, _, _ = hj.Hijack()
 					}
+				case strings.HasPrefix(op, "pd:"):
+					// the panic comes from the bottom of a deep call stack (a
+					// recursive descent, a long chain of small helpers)
+					raiseDeep(150, op[3:])
 				case strings.HasPrefix(op, "pg:"):
 					if len(op)%2 == 0 {
 						raiseFromGenerated(op[3:])
@@ -386,13 +405,18 @@ func build(c Case) *app {
 	}
 	switch c.RecoveryAt {
 	case "use":
-		a.f.Use(rec...)
+		if !c.Late {
+			a.f.Use(rec...)
+		}
 		if c.Site == "notfound" {
 			a.f.NotFound(hs...) // "/p" is not registered: the chain is the not-found chain
 		} else {
 			a.f.Routes("/p", "GET,HEAD", hs...)
 		}
 		a.f.Routes("/ok", "GET,HEAD", ok)
+		if c.Late {
+			a.late = rec // installed by prime(), after both routes have been requested once
+		}
 	case "group":
 		a.f.Group("/g", func() {
 			a.f.Routes("/p", "GET,HEAD", hs...)
@@ -403,6 +427,19 @@ func build(c Case) *app {
 		a.f.Routes("/ok", "GET,HEAD", append(append([]flamego.Handler{}, rec...), ok)...)
 	}
 	return a
+}
+
+// prime requests both routes once (a panic of the unprotected route comes out
+// of ServeHTTP, as it must) and installs Recovery only then.
+func (a *app) prime(c Case) {
+	if a.late == nil {
+		return
+	}
+	serveM(a, "GET", c.path("ok"))
+	serveM(a, "GET", c.path("p"))
+	a.f.Use(a.late...)
+	a.late, a.primed = nil, true
+	a.log, a.seenStatus = nil, nil
 }
 
 func (c Case) path(which string) string {
@@ -483,6 +520,12 @@ func checkCase(c Case) (out evid.Outcome) {
 	out.Sub = len(c.Reqs)
 	a := build(c)
 	freshApp := build(c)
+	a.prime(c)
+	freshApp.prime(c)
+	if c.Late && c.RecoveryAt == "use" {
+		out.NonTrivial = true
+		out.Classes = append(out.Classes, "recovery-installed-after-first-requests")
+	}
 	setEnv(c.Env)
 	if c.EnvAtBuild != "" && c.EnvAtBuild != c.Env {
 		out.NonTrivial = true
@@ -671,6 +714,7 @@ func genCase(t *rapid.T) Case {
 	c.ReqHdr = []string{"", "", "", "accept-json", "upgrade", "accept-html"}[rapid.IntRange(0, 5).Draw(t, "reqhdr")]
 	c.OuterWrites = c.Outer > 0 && !c.WrapWriter && rapid.IntRange(0, 4).Draw(t, "outerwrites") == 0
 	c.Twice = rapid.IntRange(0, 5).Draw(t, "twice") == 0
+	c.Late = c.RecoveryAt == "use" && rapid.IntRange(0, 4).Draw(t, "late") == 0
 	switch rapid.IntRange(0, 5).Draw(t, "site") {
 	case 0:
 		c.Site = "action"
@@ -699,7 +743,7 @@ func genCase(t *rapid.T) Case {
 			case w < 7:
 				h.Ops = append(h.Ops, fmt.Sprintf("s%d", []int{200, 201, 404, 503}[rapid.IntRange(0, 3).Draw(t, "code")]))
 			case w < 10:
-				pre := []string{"p:", "p:", "p:", "pg:"}[rapid.IntRange(0, 3).Draw(t, "pfrom")]
+				pre := []string{"p:", "p:", "p:", "pg:", "pd:"}[rapid.IntRange(0, 4).Draw(t, "pfrom")]
 				h.Ops = append(h.Ops, pre+kinds[rapid.IntRange(0, len(kinds)-1).Draw(t, "kind")])
 			case w < 11:
 				h.Ops = append(h.Ops, []string{"bfw", "xc", "hj", "hj"}[rapid.IntRange(0, 3).Draw(t, "odd")])
